@@ -282,6 +282,122 @@ def _shard(sh: Dict[str, Any]) -> Dict[str, Any]:
             "inconclusive": [], "shard": sh["name"], "cex": cex, "samples": samples, "extra": extra, "reached": extra["contexts_checked"]}
 
 
+# ------------------------------------------------------------------ target grammar (solver-enumerated)
+OB_G = "C08.as-target grammar: varname is the target or None, never another expression"
+ARGS = ["()", "(i)", "(1, i)", "(i, 0, 'z')"]
+IDX = ["0", "'k'", "i", "E.k"]
+
+
+def gen_load(e: Engine, depth: int, tag: str) -> str:
+    """A load expression: names, attribute chains, subscripts, positional-only calls (the documented understood forms)."""
+    base = ["x", "E", "G"][e.choice(f"{tag}base", 3)]        # a local, the argument, a global (callable)
+    expr = base
+    for lvl in range(depth):
+        k = e.choice(f"{tag}op{lvl}", 5)
+        if k == 0:
+            break
+        if k == 1:
+            expr += ".a"
+        elif k == 2:
+            expr += "[" + IDX[e.choice(f"{tag}idx{lvl}", len(IDX))] + "]"
+        elif k == 3:
+            expr += ARGS[e.choice(f"{tag}args{lvl}", len(ARGS))]
+        else:
+            expr += ".m" + ARGS[e.choice(f"{tag}margs{lvl}", len(ARGS))]
+    return expr
+
+
+def gen_simple_target(e: Engine, depth: int, tag: str) -> str:
+    k = e.choice(f"{tag}kind", 3)
+    if k == 0:
+        return ["p", "q", "r"][e.choice(f"{tag}name", 3)]
+    ld = gen_load(e, depth, tag)
+    if k == 1:
+        return ld + ".y"
+    return ld + "[" + IDX[e.choice(f"{tag}sidx", len(IDX))] + "]"
+
+
+def gen_target(e: Engine, depth: int, pair_depth: int, form: Optional[int] = None) -> Tuple[str, str]:
+    """(target text, shape of the value __enter__ must return)"""
+    if form is None:
+        form = e.choice("form", 6)
+    if form == 0:
+        return gen_simple_target(e, depth, "t"), "self"
+    a = gen_simple_target(e, pair_depth, "a")
+    b = gen_simple_target(e, pair_depth, "b")
+    if form == 1:
+        return f"({a}, {b})", "pair"
+    if form == 2:
+        return f"[{a}, {b}]", "pair"
+    if form == 3:
+        return f"({a}, *s)", "triple"
+    if form == 4:
+        return f"(*s, {b})", "triple"
+    return f"({a}, ({b}, u))", "nested"
+
+
+def grammar_program(kind: str, is_async: bool, tgt: str, first: bool) -> str:
+    kw = "async with" if is_async else "with"
+    sus = "yield 1" if kind == "gen" else "await E.t()"
+    items = [f"E.m(1) as {tgt}", "E.m(2)"] if first else ["E.m(1)", f"E.m(2) as {tgt}"]
+    pre = ["i = 0", "x = E"]
+    body = [f"{kw} " + ", ".join(items) + ":", f"    {sus}"]
+    return ("def prog(E):\n" if kind == "gen" else "async def prog(E):\n") + "".join("    " + l + "\n" for l in pre + body) + f"    {sus}\n"
+
+
+LAST_RENDERED = [False]
+
+
+def grammar_case(kind: str, is_async: bool, tgt: str, first: bool) -> Optional[str]:
+    from stackscope import _lowlevel
+
+    src = grammar_program(kind, is_async, tgt, first)
+    ns: Dict[str, Any] = {}
+    exec(compile(src, "<prog>", "exec"), ns)
+    code = ns["prog"].__code__
+    try:
+        table = _lowlevel.analyze_with_blocks(code)
+    except Exception as ex:
+        return f"analyze_with_blocks raised {ex!r}"
+    if len(table) != 2:
+        return f"{len(table)} entries for 2 with items"
+    names = [c.varname for c in table.values()]
+    others = [n for n in names if n is not None]
+    if len(others) > 1:
+        return f"two varnames {others} although one item has no target"
+    LAST_RENDERED[0] = bool(others)
+    if not others:
+        if tgt.isidentifier():
+            return f"plain name target {tgt!r} was dropped"
+        return None                  # could not figure it out: allowed
+    if norm_target(others[0]) != norm_target(tgt):
+        return f"varname {others[0]!r} is not the target {tgt!r}"
+    # and it sits on the right item: the entries are keyed by handler offset, inner handler first in bytecode order
+    return None
+
+
+def _grammar_shard(sh: Dict[str, Any]) -> Dict[str, Any]:
+    cex: List[Dict[str, Any]] = []
+    samples: List[Any] = []
+    stats = {"rendered": 0, "dropped": 0}
+    kind, is_async, depth, form0 = sh["kind"], sh["async"], sh["depth"], sh.get("first")
+
+    def harness(e: Engine) -> None:
+        tgt, _shape = gen_target(e, depth, sh.get("pair_depth", 0), sh.get("form"))
+        first = bool(e.choice("target_on_first_item", 2)) if form0 is None else form0
+        why = grammar_case(kind, is_async, tgt, first)
+        if why is None:
+            stats["rendered" if LAST_RENDERED[0] else "dropped"] += 1
+        if len(samples) < 1:
+            samples.append({"target": tgt, "kind": kind})
+        if why and len(cex) < 3:
+            cex.append({"grammar": True, "kind": kind, "async": is_async, "target": tgt, "first": first, "why": why})
+
+    eng = Engine(max_seconds=900)
+    eng.explore(harness)
+    return par.shard_result(eng, shard=f"grammar {kind} depth<={depth} pairs<={sh.get('pair_depth', 0)} form={sh.get('form')} first={form0}", cex=cex, samples=samples, extra={"grammar_targets": eng.paths, "grammar_targets_rendered": stats["rendered"], "grammar_targets_dropped_as_None": stats["dropped"]})
+
+
 # ------------------------------------------------------------------ stdlib (static leg)
 def _stdlib_files() -> List[str]:
     import sysconfig
@@ -392,7 +508,8 @@ def run(rep: Any, tier: str, seed: int) -> None:
     rep.engine_name = f"symx (z3 {z3.get_version_string()})"
     rep.functions = FUNCTIONS
     rep.bounds = {"corpus": "the C01 corpus + target forms x layouts: " + str(len(SUPPORTED_TARGETS)) + " supported, " + str(len(UNSUPPORTED_TARGETS)) + f" unsupported targets x {LAYOUTS}",
-                  "f_lasti": "every reachable suspension offset", "stdlib": "thorough tier: every function of the standard library compiled on this interpreter (static table only)"}
+                  "f_lasti": "every reachable suspension offset", "target grammar": "every target of the grammar name | load.attr | load[idx] | pairs / lists / starred / nested of those, (pair elements: load of <= 0 (thorough 1) steps) load = base followed by <= 2 (thorough 3) of .a / [idx] / (args) / .m(args), idx in " + str(IDX) + ", args in " + str(ARGS) + ", sync and async, on the first or the second with item",
+                  "stdlib": "thorough tier: every function of the standard library compiled on this interpreter (static table only)"}
     rep.outside = ["CPython 3.9-3.11", "stdlib functions the abstract interpreter cannot type are skipped and counted",
                    "the static stdlib leg is a concrete enumeration of compiler output (a corpus bound, no symbolic variable)"]
     rep.stubs = ["as C01; locals of the fake frame bind simple-name targets (and the pre-bound m0) to the dummy managers"]
@@ -408,6 +525,11 @@ def run(rep: Any, tier: str, seed: int) -> None:
     for k, c in enumerate(cs):
         c["programs"] = c["programs"] + tc[k::len(cs)]
     jobs: List[Tuple[str, Any]] = [("_shard", c) for c in cs]
+    if tier == "quick":
+        jobs += [("_grammar_shard", {"kind": k, "async": a_, "depth": 2, "pair_depth": 0, "first": f_}) for k, a_ in (("gen", False), ("coro", True)) for f_ in (True, False)]
+    else:
+        jobs += [("_grammar_shard", {"kind": k, "async": a_, "depth": 3, "pair_depth": 1, "form": fm, "first": f_})
+                 for k, a_ in (("gen", False), ("coro", True)) for f_ in (True, False) for fm in range(6)]
     if tier == "thorough":
         files = _stdlib_files()
         for k in range(32):
@@ -415,6 +537,8 @@ def run(rep: Any, tier: str, seed: int) -> None:
     res = par.run_mixed("harness.c08", jobs)
     for c in par.fold(rep, OB_A, [r for fn, r in res if fn == "_shard"]):
         rep.counterexample(OB_B if c.get("table") else OB_A, c, c["why"])
+    for c in par.fold(rep, OB_G, [r for fn, r in res if fn == "_grammar_shard"]):
+        rep.counterexample(OB_G, c, c["why"])
     sl = [r for fn, r in res if fn == "_stdlib_shard"]
     if sl:
         for c in par.fold(rep, OB_B, sl):
@@ -427,6 +551,9 @@ def run(rep: Any, tier: str, seed: int) -> None:
 def replay(case: Dict[str, Any]) -> Dict[str, Any]:
     """Real frames: run the program and compare the metadata reported by the real
     contexts_active_in_frame with the AST."""
+    if case.get("grammar"):
+        why = grammar_case(case["kind"], case["async"], case["target"], case["first"])
+        return {"status": "reproduces" if why else "not-reproduced", "detail": why}
     from stackscope import _lowlevel
 
     if case.get("canary"):
